@@ -20,7 +20,9 @@ RULE = ('cases = whole connections through the real HttpProtocolHandler+HttpProx
         'resolve_dns) independently pass / modify (marker header, marker byte, marker context key) / delete / drop (None) / '
         'reject (HttpRequestRejected with chosen status, reason, body or none) / raise / change behaviour after n calls; with and '
         'without basic auth (valid credentials); histories = first request (GET/POST/CONNECT, random segmentation, connect ok/refused) '
-        'then later requests, upstream chunks, raw client data, ended by client EOF/reset, upstream EOF/reset or executor shutdown; '
+        'then later requests, upstream chunks, raw client data, ended by client EOF/reset, upstream EOF/reset or executor shutdown, each with the '
+        'client socket\'s shutdown(SHUT_WR) succeeding / raising ENOTCONN (after a peer reset) / raising a scripted OSError (endings grid: ending x '
+        'shutdown outcome x fate of the first request); plugin class names drawn from a pool sorting before/after/around "AuthPlugin"; '
         'a connection whose first request never completes; load-order cases with duplicate classes and equal names. '
         'A case is non-trivial when at least two plugins were invoked or a plugin dropped/rejected; distinct = distinct inputs')
 TRUSTED = ['hooks are modelled as functions of (everything logged on the connection so far, argument); plugins that write to the client/'
@@ -78,17 +80,48 @@ def history(rng, auth, method=None, calm=False):
 
 def gen_runs(rng, quick):
     out = []
-    n = 95 if quick else 2500
+    n = 75 if quick else 2500
     for i in range(n):
         k = rng.choice([1, 2, 2, 3, 3, 4])
         ids = list(range(1, k + 1))
         rng.shuffle(ids)
         bad_life = rng.random() < 0.15
-        tables = [rand_table(rng, j, calm=rng.random() < 0.35, bad_life=bad_life) for j in ids]
+        names = P.pick_names(rng, k)
+        tables = [dict(rand_table(rng, j, calm=rng.random() < 0.35, bad_life=bad_life), name=names[j - 1]) for j in ids]
         auth = rng.random() < 0.3
         out.append(dict(kind='run', basic_auth=b'user:pass' if auth else None, tables=tables, disable=rng.choice([[], [], [b'x-secret']]),
                         steps=history(rng, auth, method=[b'GET', b'POST', b'CONNECT', b'GET'][i % 4]),
-                        end=rng.choice(['client_eof', 'shutdown', 'upstream_eof', 'client_reset', 'upstream_reset'])))
+                        end=rng.choice(ENDINGS), shutdown_error=rng.choice([None, None, None, 'ENOTCONN', 'EIO'])))
+    return out
+
+
+ENDINGS = ['client_eof', 'shutdown', 'upstream_eof', 'client_reset', 'upstream_reset']
+
+
+def gen_endings(rng, quick):
+    """the lifecycle clause, first class: every way the connection can end x every outcome of the client socket's
+    shutdown(SHUT_WR) that handler.shutdown() makes (ok / ENOTCONN after a peer reset (sim) / scripted OSError) x what
+    happened to the first request (served, served + data relayed, dropped, rejected before connect, rejected after
+    connect, connect refused), with recording plugins whose names sort around 'AuthPlugin'"""
+    out = []
+    firsts = ['served', 'relayed', 'dropped', 'rejected_buc', 'rejected_hcr', 'refused']
+    grid = [(e, se, f) for e in ENDINGS for se in (None, 'ENOTCONN', 'EIO') for f in firsts]
+    if quick:
+        # every ending x every shutdown outcome at least once, first-request outcomes rotated
+        grid = [(e, se, firsts[(i * 3 + j) % len(firsts)]) for i, e in enumerate(ENDINGS) for j, se in enumerate((None, 'ENOTCONN', 'EIO'))]
+        grid += [('client_reset', None, f) for f in firsts[2:5]]
+    for e, se, f in grid:
+        names = P.pick_names(rng, 3)
+        acts = {'dropped': dict(buc=['drop']), 'rejected_buc': dict(buc=['reject', 403, b'No', b'x']),
+                'rejected_hcr': dict(hcr=['reject', 403, b'No', None])}.get(f, {})
+        tables = [P.mk_table(2, name=names[0], oal=['modify', b'a2']), P.mk_table(1, name=names[1], **acts), P.mk_table(3, name=names[2])]
+        auth = rng.random() < 0.3
+        spec = P.mk_request(rng, method=rng.choice([b'GET', b'CONNECT', b'POST']),
+                            auth_line=b'Proxy-Authorization: Basic dXNlcjpwYXNz' if auth else None)
+        steps = [P.first_step(rng, spec, f != 'refused')]
+        if f == 'relayed':
+            steps.append(['upstream', b'HTTP/1.1 200 OK\r\nContent-Length: 2\r\n\r\nok' if spec['method'] != b'CONNECT' else b'\x16\x03'])
+        out.append(dict(kind='run', basic_auth=b'user:pass' if auth else None, tables=tables, disable=[], steps=steps, end=e, shutdown_error=se))
     return out
 
 
@@ -145,7 +178,8 @@ def gen_nofirst(rng, quick):
         raw = P.wire(s)
         cut = rng.randrange(1, len(raw) - 1)
         out.append(dict(kind='nofirst', basic_auth=None, tables=[rand_table(rng, 1), rand_table(rng, 2)], disable=[],
-                        partial=raw[:cut], steps=[], end=rng.choice(['client_eof', 'shutdown', 'client_reset'])))
+                        partial=raw[:cut], steps=[], end=rng.choice(['client_eof', 'shutdown', 'client_reset']),
+                        shutdown_error=rng.choice([None, 'EIO'])))
     return out
 
 
@@ -153,7 +187,8 @@ def gen_order(rng, quick):
     out = []
     for _ in range(14 if quick else 300):
         n = rng.randrange(1, 5)
-        ts = [P.mk_table(i) for i in range(1, n + 1)]
+        names = P.pick_names(rng, n)
+        ts = [P.mk_table(i, name=names[i - 1]) for i in range(1, n + 1)]
         rng.shuffle(ts)
         if rng.random() < 0.4:
             ts.insert(rng.randrange(len(ts) + 1), dict(rng.choice(ts)))            # same class twice
@@ -166,7 +201,7 @@ def gen_order(rng, quick):
 
 def generate(rng, tier):
     quick = tier != 'thorough'
-    return gen_runs(rng, quick) + gen_permutations(rng, quick) + gen_exhaustive(rng, quick) + gen_nofirst(rng, quick) + gen_order(rng, quick)
+    return gen_runs(rng, quick) + gen_endings(rng, quick) + gen_permutations(rng, quick) + gen_exhaustive(rng, quick) + gen_nofirst(rng, quick) + gen_order(rng, quick)
 
 
 # ------------------------------------------------------------------ implementation
